@@ -287,6 +287,16 @@ def host_reexport_cases():
     want.append("ACCEPT")
     cases.append(('import { hv } from b;\nfn hv() -> int { 5 }\nfn main() { println(hv()); }\n', {"b": 'pub let hv = 1;\nfn main() { }\n'}))
     want.append("REJECT")
+    # S1: a pub function imported from a code module is a function of the program (it can be spawned, like a function of
+    # the entry module); a function value is not: a local that holds or shadows the imported function, a host function
+    for main, w in (('import { g } from b;\nfn main() { spawn g(); let h = spawn g(); for i in 0..2 { spawn g(); } }\n', "ACCEPT"),
+                    ('import { g } from b;\nfn own() { }\nfn main() { spawn own(); spawn g(); }\n', "ACCEPT"),
+                    ('import { g } from b;\nfn main() { let f = g; spawn f(); }\n', "REJECT"),
+                    ('import { g } from b;\nfn main() { let g = fn() { }; spawn g(); }\n', "REJECT"),
+                    ('import { g } from b;\nfn main() { let h = spawn g(); h.join(); }\n', "REJECT"),
+                    ('import { ping } from net;\nimport { g } from b;\nfn main() { spawn g(); spawn ping("a", 1.0); }\n', "REJECT")):
+        cases.append((main, {"b": b}))
+        want.append(w)
     return cases, want
 
 
@@ -355,9 +365,11 @@ def run(ctx):
         ctx.count(case_key=(main, mods["b"]), nontrivial=True)
         got = r["A"].split()[0] if r.get("A") else "?"
         if got != want or (want == "REJECT" and "syn=0" not in r["A"]):
+            why = ("an imported pub function is a function of the program and can be spawned, a function value cannot: " + " ".join(main.split())[:120]
+                   if "spawn" in main else "only pub items declared in b can be imported from b")
             ctx.violation({"kind": "prog", "main": main, "mods": mods, "analysis": r["A"][:300], "want": want},
                           f"C15 import visibility: `{main.splitlines()[0]}` with b = `{mods['b'].splitlines()[0]}`: analysis says {r['A'][:60]}, "
-                          f"expected {want} (only pub items declared in b can be imported from b)")
+                          f"expected {want} ({why})")
             if len(ctx.violations) >= 5:
                 break
     two = list(mg.family_a()) + list(mg.family_b()) + list(mg.family_c()) + list(mg.family_e()) + list(mg.family_r())
